@@ -23,6 +23,7 @@ import DisjointImpls.Lemmas.EndToEnd
 import DisjointImpls.CanonAlphaDefs
 import DisjointImpls.Lemmas.CanonIsRenamingDefs
 import DisjointImpls.Lemmas.CanonRoundTripDefs
+import DisjointImpls.Lemmas.CanonHeaderConverseDefs
 import DisjointImpls.Lemmas.EndToEndNested
 import DisjointImpls.Lemmas.Acyclic
 import DisjointImpls.Lemmas.FlatAccept
@@ -32,6 +33,7 @@ import DisjointImpls.Lemmas.ExpandItems
 import DisjointImpls.Lemmas.ExpandEmit
 import DisjointImpls.Lemmas.RevSubExact
 import DisjointImpls.Lemmas.OverlapEndToEnd
+import DisjointImpls.Lemmas.HelperAlign
 open DI
 
 def rToSx : R → Sx
@@ -105,7 +107,23 @@ def handleExpand (args : List Sx) : Sx :=
                    | _, _, _ => .list [])
                | none => (match helperImpls idx g, mainImplInherent idx g with
                    | some hs, .ok (some m) => .list [boolSx false, boolSx true, boolSx (mainWhereExact_em none idx g m), boolSx (helperRowsExact_em g hs)]
-                   | _, _ => .list []))]))]
+                   | _, _ => .list [])),
+              -- hypotheses (genericsShaped_it, familyKindsMatch_ha) and conclusion of C16_kinds_align_family on the model's expansion, and the exact
+              -- freshness condition keyNamesFresh_ha of C16_helper_generics_shape (trait mode)
+              (match trait_ with
+               | some t => (match helperTraitOfTrait t idx nkeys, helperImpls idx g, mainImplOfTrait t idx g with
+                   | some ht, some hs, .ok m =>
+                       let hp := traitParams_inh ht
+                       let implsOK := hs.all (fun h => match XOK.traitPathOf h with
+                         | some p => kindsMatch_ha hp (printedArgs_inh (XOK.segArgs (XOK.lastSeg p)))
+                         | none => false)
+                       let refOK := match mainHref_inh m with
+                         | some href => kindsMatch_ha hp (XOK.segArgs (XOK.lastSeg href))
+                         | none => false
+                       .list [boolSx (genericsShaped_it (XOK.kid t 6) && familyKindsMatch_ha t g), boolSx (implsOK && refOK),
+                              boolSx (keyNamesFresh_ha (traitParamsOf_it t) nkeys)]
+                   | _, _, _ => .list [])
+               | none => .list [])]))]
       | .unableToForm _ => .list [.sym "unable"]
       | .panic _ => .list [.sym "panic"]
   | _ => .list [.sym "bad-args"]
@@ -231,7 +249,11 @@ def handle (cmd : String) (args : List Sx) : Sx :=
              boolSx (noOld_cr r (canon item)), boolSx (alphaOK r item),
              boolSx (renamingShapeOK_cr item), boolSx (canon item == qselfForm_cr (alphaRenameC_cr r item)),
              -- hypothesis and conclusion of C13_round_trip
-             boolSx (roundTripOK_rt item), boolSx (alphaRenameC_cr r.inv_rt (unqself_rt r (canon item)) == item)]
+             boolSx (roundTripOK_rt item), boolSx (alphaRenameC_cr r.inv_rt (unqself_rt r (canon item)) == item),
+             -- C13_header_of_canon (unconditional) and C13_header_resolved_locally (canonWF, hdrFirst_hc, ixVis of the header)
+             boolSx (groupIdOf (canon item) == rsT r (groupIdOf item)),
+             boolSx (canonWF item && hdrFirst_hc item && ixVis (mkHdr item)),
+             boolSx (groupIdOf (canon item) == rsT (hdrRenaming_hc item) (groupIdOf item))]
   | "alpha", [base, variant, pi] =>
       -- hypotheses and conclusion of C06_renamed_permuted_same_header for a block and a renamed / re-declared presentation of it:
       -- pi = Pi[lt[a b …], ty[a b …], co[a b …]] (old name, new name, …)
@@ -252,7 +274,10 @@ def handle (cmd : String) (args : List Sx) : Sx :=
              boolSx (alphaOKh π base && hdrVis base),
              -- hypotheses and conclusion of C13_same_canon_only_if_renaming for the pair (base, variant)
              boolSx (roundTripOK_rt base && roundTripOK_rt variant && canon base == canon variant),
-             boolSx (alphaRenameC_cr (renamingBetween_rt base variant) base == variant)]
+             boolSx (alphaRenameC_cr (renamingBetween_rt base variant) base == variant),
+             -- hypotheses and conclusion of C13_same_header_only_if_renaming / C06_same_bucket_only_if_headers_alpha_equivalent
+             boolSx (hdrConverseOK_hc base && hdrConverseOK_hc variant && groupIdOf (mkBlk base).item == groupIdOf (mkBlk variant).item),
+             boolSx (acT_cr (hdrRenamingBetween_hc base variant) (groupIdOf base) == groupIdOf variant)]
   | "hwfdbg", items =>
       let ids := (mkBuckets (items.map mkBlk)).map (·.1)
       .list (ids.map (fun g => .list [boolSx (okT_tr g), boolSx (presInj_tr g),
